@@ -12,6 +12,48 @@ Open Scope Z_scope.
 Definition done_ok (l : lx) : Prop :=
   exists it rest, l_out l = it :: rest /\ (t_typ it = itemEOF \/ t_typ it = itemError).
 
+(* ---------- what is claimed of every item sent ---------- *)
+
+(* least length of the text of an item: the parser takes val[1:] of $ident .ident .N items and val[2:] of
+   ?.ident ?.N items *)
+Definition val_min (t : N) : nat :=
+  if ((t =? itemDollarIdent) || (t =? itemDotIdent) || (t =? itemDotIndex))%N then 1%nat
+  else if ((t =? itemQuestionDotIdent) || (t =? itemQuestionDotIndex))%N then 2%nat else 0%nat.
+(* EOF and error items end the scan *)
+Definition is_final (t : N) : bool := ((t =? itemEOF) || (t =? itemError))%N.
+
+(* an item lies inside the input (positions are base + an offset <= len) and is long enough for its type *)
+Definition item_ok (lim : N) (it : tok) : Prop :=
+  (t_pos it <= lim)%N /\ (val_min (t_typ it) <= length (t_val it))%nat.
+Definition plain_ok (lim : N) (it : tok) : Prop := item_ok lim it /\ is_final (t_typ it) = false.
+(* the items sent so far (most recent first): all well-formed; an EOF or error item only as the most
+   recent one, and then the scan is over ([final] = true) *)
+Definition items_ok (lim : N) (final : bool) (out : list tok) : Prop :=
+  if final then
+    match out with
+    | it :: rest => item_ok lim it /\ is_final (t_typ it) = true /\ Forall (plain_ok lim) rest
+    | [] => False
+    end
+  else Forall (plain_ok lim) out.
+
+Lemma to_N_mono a c : a <= c -> (Z.to_N a <= Z.to_N c)%N.
+Proof. intros H. destruct a, c; cbn; lia. Qed.
+
+Lemma items_ok_push lim out it :
+  items_ok lim false out -> item_ok lim it -> items_ok lim (is_final (t_typ it)) (it :: out).
+Proof.
+  unfold items_ok. intros Ho Hi. destruct (is_final (t_typ it)) eqn:E.
+  - repeat split; try assumption; apply Hi.
+  - constructor; [split; assumption|assumption].
+Qed.
+
+Lemma items_ok_done lim l : items_ok lim true (l_out l) -> done_ok l.
+Proof.
+  unfold items_ok, done_ok. destruct (l_out l) as [|it rest]; [contradiction|]. intros (_ & Hf & _).
+  exists it, rest. split; [reflexivity|]. unfold is_final in Hf. apply Bool.orb_true_iff in Hf.
+  destruct Hf as [Hf|Hf]; apply N.eqb_eq in Hf; auto.
+Qed.
+
 Definition okp {A} (x : outcome A) (P : A -> Prop) : Prop :=
   match x with Ok v => P v | _ => False end.
 
@@ -149,28 +191,41 @@ Proof.
   exfalso. apply (drop_nonempty (Z.to_nat i) inp); [lia|exact Ed].
 Qed.
 
+Notation lim := (Z.to_N (base + ilen)).
+
 Definition emit_post (t : N) (l l' : lx) : Prop :=
   l_pos l' = l_pos l /\ l_start l' = l_pos l /\ l_width l' = l_width l /\ l_ticks l' = l_ticks l /\ l_dd l' = l_dd l /\
+  items_ok lim (is_final t) (l_out l') /\
   exists it, l_out l' = it :: l_out l /\ t_typ it = t /\ l_last l' = it /\ t_pos it = Z.to_N (base + l_pos l).
 
-Lemma emit_spec t l : 0 <= l_start l <= l_pos l -> l_pos l <= ilen -> okp (emit inp ilen base t l) (emit_post t l).
+(* emit: the pending text input[start:pos] must be long enough for the item type *)
+Lemma emit_spec t l : 0 <= l_start l <= l_pos l -> l_pos l <= ilen ->
+  items_ok lim false (l_out l) -> Z.of_nat (val_min t) <= l_pos l - l_start l ->
+  okp (emit inp ilen base t l) (emit_post t l).
 Proof.
-  intros H1 H2. unfold emit.
+  intros H1 H2 Hit Hv. unfold emit.
   destruct (ilen <? l_pos l) eqn:E; [lia|].
-  eapply okp_bind; [apply slice_spec; lia|]. intros v _. cbn.
-  repeat split. eexists; repeat split.
+  eapply okp_bind; [apply slice_spec; lia|]. intros v Hlen. cbn beta in Hlen. cbn.
+  repeat split.
+  - apply (items_ok_push lim (l_out l) {| t_typ := t; t_pos := Z.to_N (base + l_pos l); t_val := v |}); [exact Hit|].
+    unfold item_ok. cbn [t_pos t_typ t_val]. split; [apply to_N_mono; lia|lia].
+  - eexists; repeat split.
 Qed.
-
 
 Definition errorf_post (l : lx) (p : lstate * lx) : Prop :=
   let '(st, l') := p in
-  st = LDone /\ l_pos l' = l_pos l /\ l_start l' = l_start l /\ l_width l' = l_width l /\ l_ticks l' = l_ticks l /\ done_ok l' /\
-  exists it, l_out l' = it :: l_out l /\ t_pos it = Z.to_N (base + l_pos l).
+  st = LDone /\ l_pos l' = l_pos l /\ l_start l' = l_start l /\ l_width l' = l_width l /\ l_ticks l' = l_ticks l /\
+  items_ok lim true (l_out l') /\
+  exists it, l_out l' = it :: l_out l /\ t_typ it = itemError /\ t_pos it = Z.to_N (base + l_pos l).
 
-Lemma errorf_spec c l : 0 <= l_pos l -> okp (errorf base c l) (errorf_post l).
+Lemma errorf_spec c l : 0 <= l_pos l <= ilen -> items_ok lim false (l_out l) -> okp (errorf base c l) (errorf_post l).
 Proof.
-  intros H. unfold errorf. destruct (base + l_pos l <? 0) eqn:E; [lia|]. cbn.
-  repeat split; [eexists; eexists; split; [reflexivity|right; reflexivity]|eexists; split; reflexivity].
+  intros H Hit. unfold errorf. destruct (base + l_pos l <? 0) eqn:E; [lia|]. cbn.
+  repeat split.
+  - cbn [t_pos]. apply to_N_mono. lia.
+  - cbn [t_typ t_val]. change (val_min itemError) with 0%nat. lia.
+  - exact Hit.
+  - eexists; repeat split.
 Qed.
 
 (* ---------- accept, acceptRun ---------- *)
@@ -224,18 +279,20 @@ Qed.
 
 Definition met_post (bk : Z) (l l' : lx) : Prop :=
   l_pos l' = l_pos l /\ l_width l' = l_width l /\ l_ticks l' = l_ticks l /\ l_dd l' = l_dd l /\
-  l_start l <= l_start l' /\ (l_start l' = l_start l \/ l_start l' = l_pos l - bk).
+  l_start l <= l_start l' /\ (l_start l' = l_start l \/ l_start l' = l_pos l - bk) /\
+  items_ok lim false (l_out l').
 
-Lemma maybe_emit_text_spec l bk : 0 <= bk -> 0 <= l_start l -> l_pos l <= ilen ->
+Lemma maybe_emit_text_spec l bk : 0 <= bk -> 0 <= l_start l -> l_pos l <= ilen -> items_ok lim false (l_out l) ->
   okp (maybe_emit_text inp ilen base l bk) (met_post bk l).
 Proof.
-  intros Hb Hs Hp. unfold maybe_emit_text.
-  destruct (l_start l <? l_pos l - bk) eqn:E; [|cbn; unfold met_post; lia].
+  intros Hb Hs Hp Hit. unfold maybe_emit_text.
+  destruct (l_start l <? l_pos l - bk) eqn:E; [|cbn; unfold met_post; repeat split; try lia; exact Hit].
   lsimpl. eapply okp_bind; [apply slice_spec; lia|]. intros v _.
   destruct (all_space_with_newline v).
-  - cbn. unfold met_post. lsimpl. lia.
-  - eapply okp_bind; [apply emit_spec; lsimpl; lia|]. intros l2 H2. unfold emit_post in H2. lsimpl.
-    cbn. unfold met_post. lsimpl. fin.
+  - cbn. unfold met_post. lsimpl. repeat split; try lia; exact Hit.
+  - eapply okp_bind; [apply emit_spec; lsimpl; [lia|lia|exact Hit|change (val_min itemText) with 0%nat; lia]|].
+    intros l2 H2. unfold emit_post in H2. lsimpl.
+    cbn. unfold met_post. lsimpl. dest_hyps. change (is_final itemText) with false in *. repeat split; try lia. assumption.
 Qed.
 
 (* ---------- skipSpace, the identifier loop ---------- *)
@@ -264,9 +321,10 @@ Proof.
 Qed.
 
 Lemma emit_to_spec t st l : 0 <= l_start l <= l_pos l -> l_pos l <= ilen ->
+  items_ok lim false (l_out l) -> Z.of_nat (val_min t) <= l_pos l - l_start l ->
   okp (emit_to inp ilen base t st l) (fun p => fst p = st /\ emit_post t l (snd p)).
 Proof.
-  intros H1 H2. unfold emit_to. eapply okp_bind; [apply emit_spec; assumption|]. intros l1 H. cbn. split; [reflexivity|exact H].
+  intros H1 H2 H3 H4. unfold emit_to. eapply okp_bind; [apply emit_spec; assumption|]. intros l1 H. cbn. split; [reflexivity|exact H].
 Qed.
 
 Lemma loop_fuel_ok l : 0 <= l_pos l <= ilen -> (Z.to_nat (ilen - l_pos l) < loop_fuel ilen l)%nat.
